@@ -91,7 +91,32 @@ META = {
 }
 
 
+TOKEVAL = {
+    "C01": "applicator and scalar keyword truth tables over sub-verdict oracles / abstract operands; type predicates over value classes",
+    "C02": "dispatcher and resolver (resolve, push/pop, join) evaluated on the package's own classes with recording stubs",
+    "C04": "validate/is_valid/create_from/best_match/module validate evaluated on the package's own classes",
+    "C05": "applicator tables (all sub-errors forwarded once); dispatcher evaluated with recording keyword functions",
+    "C06": "applicator tables (paths), error classes (absolute paths, json_path), dispatcher stamping and descend evaluated",
+    "C07": "URIDict evaluated as an object",
+    "C08": "normaliser evaluated on true/false, scalars and all array/object nestings to depth 3",
+    "C10": "dispatcher evaluated: $ref alone, in any key order",
+    "C11": "type predicates over value classes",
+    "C12": "FormatChecker.check/conforms/registration evaluated with recording stub checkers",
+    "C13": "-",
+    "C14": "fallback only: resolve_fragment against an RFC 6901 reference on 38 fragments when the ordering analysis cannot extract the pipeline",
+    "C15": "RefResolver retrieval, caching and construction evaluated with recording handlers; URIDict",
+    "C16": "create/extend/validates evaluated (copies, forwarding, registration)",
+    "C17": "ErrorTree evaluated on eight of the package's own error objects",
+    "C18": "resolver construction and per-validator resolver evaluated",
+    "C19": "cli.run evaluated on 127 scenarios with an in-memory open and stub validator classes; parse_args with a stub parser",
+    "C20": "validator_for, module validate and registration evaluated with stub classes",
+}
+
+
 def main():
+    for pid, what in TOKEVAL.items():
+        if what != "-" and pid in META:
+            META[pid]["technique"] += "; abstract evaluation of the functions' AST by a definitional interpreter over scenario tables (sa/tokeval.py): " + what
     checks = []
     na = []
     for pid in sorted(META):
@@ -124,7 +149,7 @@ def main():
             "name": "sa",
             "path": "sa/",
             "serves_properties": [c["property_id"] for c in checks],
-            "kind_free_text": "repository-specific static analysis in pure Python (ast): loader/name resolver, CFG with exception and generator-close edges, call graph, write-effect/alias analysis, provenance, kind abstract interpreter; nothing from /repo is imported or executed",
+            "kind_free_text": "repository-specific static analysis in pure Python (ast): loader/name resolver, CFG with exception and generator-close edges, call graph, write-effect/alias analysis, provenance, kind abstract interpreter, and a definitional interpreter (sa/tokeval.py) that evaluates the AST of package functions and classes over tables of abstract scenarios (opaque tokens + verdict oracles, ordered abstract scalars, stub collaborators); nothing from /repo is imported or executed by Python",
         }],
         "checks": checks,
         "notes": "Static analysis only. Exit 0 ok / 1 VIOLATION / 2 ANALYSIS-ERROR. Known findings in known_findings.json.",
